@@ -35,7 +35,7 @@ func strConst(v ssa.Value) (string, bool) {
 func runC17(c *core.Ctx) {
 	p := c.P
 	c.Rule("R1", "verb fidelity: the HTTP method constant that reaches the request equals the verb in the constructor's / method's name", 15)
-	c.Rule("R2", "lazy, once, faithful arguments: nothing is serialised or sent outside the effect closure; inside it exactly one request on non-serializer-error paths with URL = fold(relativeURL, pathParam), header = DefaultHeader.Clone(), body = serializer output, declared content type", 6)
+	c.Rule("R2", "lazy, once, faithful arguments: nothing is serialised or sent outside the effect closure; inside it exactly one request on non-serializer-error paths with URL = fold(relativeURL, pathParam), header = DefaultHeader.Clone(), body = serializer output, declared content type; the request builders install the given header and Content-Type before sending", 8)
 	c.Rule("R3", "path-template fold threads its accumulator and prefixes BaseURL + \"/\"", 1)
 	c.Rule("R4", "failures become Err: decode only when Err == nil; serializer error returned as Err before any request; comma-ok assertion on the deserializer's result", 4)
 	// ---------------- generic constructors: functions in network returning a func type that wraps MonadIONewGenerics
@@ -78,6 +78,9 @@ func runC17(c *core.Ctx) {
 			}
 		})
 		c.Check(ok, "R1", "SimpleHTTPDef."+n+"/passes-method-url-body", p.Pos(f.Pos()), "NewRequestWithContext(ctx, method, url, body) receives the parameters unchanged", "the request is not built from the given method/url/body parameters")
+		// the given header (and Content-Type) reach the request before it is sent
+		okH, dH := c17appliesHeader(p, f, n == "DoNewRequestWithBodyOptions")
+		c.Check(okH, "R2", "SimpleHTTPDef."+n+"/applies-header", p.Pos(f.Pos()), dH, dH)
 	}
 	verbOf := func(name string) string {
 		for v := range c17verbs {
@@ -225,6 +228,47 @@ func runC17(c *core.Ctx) {
 				}
 			}
 		})
+		// failures while reading / decoding become Err: the read error is stored on its edge, and a result of the
+		// wrong type without an error of its own gets one
+		readStored, typeStored := false, false
+		errVals := map[ssa.Value]bool{} // values that were stored as Err (a local holding the same error may be tested instead of the field)
+		core.Instrs(dec, func(ins ssa.Instruction) {
+			if st, ok := ins.(*ssa.Store); ok && core.FieldKey(st.Addr) == "ResponseWithError.Err" {
+				errVals[core.Resolve(st.Val)] = true
+			}
+		})
+		core.Instrs(dec, func(ins ssa.Instruction) {
+			st, ok := ins.(*ssa.Store)
+			if !ok || core.FieldKey(st.Addr) != "ResponseWithError.Err" {
+				return
+			}
+			for _, m := range core.EdgeCmps(st.Block()) {
+				if m.Op == token.NEQ && core.IsNilConst(m.Y) && core.Resolve(m.X) == core.Resolve(st.Val) {
+					if ex, isE := core.Resolve(st.Val).(*ssa.Extract); isE {
+						if call, isC := ex.Tuple.(*ssa.Call); isC && strings.HasSuffix(core.StdCallee(&call.Call), "ReadAll") {
+							readStored = true
+						}
+					}
+				}
+			}
+			notOK, errNil := false, false
+			for _, cnd := range core.EdgeFacts(st.Block()) {
+				nn := core.Normalize(cnd)
+				if ex, isE := nn.V.(*ssa.Extract); isE && ex.Index == 1 && !nn.True {
+					if ta, isTA := ex.Tuple.(*ssa.TypeAssert); isTA && ta.CommaOk {
+						notOK = true
+					}
+				}
+				if m, isM := core.AsCmp(nn); isM && m.Op == token.EQL && core.IsNilConst(m.Y) && (core.FieldKey(m.X) == "ResponseWithError.Err" || errVals[core.Resolve(m.X)]) {
+					errNil = true
+				}
+			}
+			if notOK && errNil && !core.IsNilConst(st.Val) {
+				typeStored = true
+			}
+		})
+		c.Check(readStored && typeStored, "R4", "decodeResponseBody/failures-become-Err", p.Pos(dec.Pos()), "read error stored as Err; a wrong-typed result without an error gets one",
+			fmt.Sprintf("decodeResponseBody drops a failure (read error stored=%v, wrong-type result reported=%v): the caller sees Err == nil with no decoded target", readStored, typeStored))
 		c.Check(bad == "" && n > 0, "R4", "decodeResponseBody/assertion", p.Pos(dec.Pos()), "assertion on the deserializer's result is comma-ok", bad+map[bool]string{true: "no assertion on a deserializer result found", false: ""}[n == 0 && bad == ""])
 	}
 }
@@ -567,4 +611,79 @@ func c17fold(p *core.Prog, fold *ssa.Function) (bool, string) {
 		return false, "the result is not BaseURL + \"/\" + the substituted template"
 	}
 	return true, "accumulator threaded through the loop; result BaseURL + \"/\" + accumulator"
+}
+
+// c17appliesHeader: between building the request and sending it, the header parameter is installed as the
+// request's header wherever it is non-nil, and (body variant) the content type is added wherever it is non-empty.
+func c17appliesHeader(p *core.Prog, f *ssa.Function, withCT bool) (bool, string) {
+	var build, send *ssa.Call
+	core.Instrs(f, func(ins ssa.Instruction) {
+		if call, ok := ins.(*ssa.Call); ok {
+			if core.StdCallee(&call.Call) == "net/http.NewRequestWithContext" {
+				build = call
+			}
+			if g := core.Callee(&call.Call); g != nil && g.Name() == "DoRequest" {
+				send = call
+			}
+		}
+	})
+	if build == nil || send == nil {
+		return false, "the request is not built with NewRequestWithContext and sent through DoRequest"
+	}
+	header := ssa.Value(f.Params[2])
+	isParamTest := func(b, s2 *ssa.BasicBlock, prm ssa.Value, absent func(core.Cmp) bool) bool {
+		iff, ok := b.Instrs[len(b.Instrs)-1].(*ssa.If)
+		if !ok || len(b.Succs) != 2 {
+			return false
+		}
+		for _, cnd := range core.ExpandCond(core.Cond{V: iff.Cond, True: b.Succs[0] == s2, If: iff}) {
+			if m, isM := core.AsCmp(cnd); isM && core.Resolve(m.X) == prm && absent(m) {
+				return true
+			}
+		}
+		return false
+	}
+	errEdge := func(b, s2 *ssa.BasicBlock) bool {
+		iff, ok := b.Instrs[len(b.Instrs)-1].(*ssa.If)
+		if !ok || len(b.Succs) != 2 {
+			return false
+		}
+		for _, cnd := range core.ExpandCond(core.Cond{V: iff.Cond, True: b.Succs[0] == s2, If: iff}) {
+			if m, isM := core.AsCmp(cnd); isM && m.Op == token.NEQ && core.IsNilConst(m.Y) {
+				if ex, isE := core.Resolve(m.X).(*ssa.Extract); isE && ex.Tuple == ssa.Value(build) && ex.Index == 1 {
+					return true
+				}
+			}
+		}
+		return false
+	}
+	okH, _ := core.MustPassBefore(build, func(ins ssa.Instruction) bool {
+		st, ok := ins.(*ssa.Store)
+		return ok && core.FieldKey(st.Addr) == "Request.Header" && core.Resolve(st.Val) == header
+	}, func(ins ssa.Instruction) bool { return ins == ssa.Instruction(send) }, func(b, s2 *ssa.BasicBlock) bool {
+		return errEdge(b, s2) || isParamTest(b, s2, header, func(m core.Cmp) bool { return m.Op == token.EQL && core.IsNilConst(m.Y) })
+	})
+	if !okH {
+		return false, "the given header is not installed on the request on every path where it is non-nil: the copy of DefaultHeader never reaches the server"
+	}
+	if withCT {
+		ct := ssa.Value(f.Params[6])
+		okC, _ := core.MustPassBefore(build, func(ins ssa.Instruction) bool {
+			call, ok := ins.(*ssa.Call)
+			if !ok || core.StdCallee(&call.Call) != "net/http.(Header).Add" && core.StdCallee(&call.Call) != "net/http.(Header).Set" {
+				return false
+			}
+			k, isS := strConst(call.Call.Args[1])
+			return isS && k == "Content-Type" && core.Resolve(call.Call.Args[2]) == ct
+		}, func(ins ssa.Instruction) bool { return ins == ssa.Instruction(send) }, func(b, s2 *ssa.BasicBlock) bool {
+			return errEdge(b, s2) || isParamTest(b, s2, ct, func(m core.Cmp) bool {
+				s, isS := strConst(m.Y)
+				return m.Op == token.EQL && isS && s == ""
+			})
+		})
+		if !okC {
+			return false, "the declared Content-Type is not added to the request on every path where it is non-empty"
+		}
+	}
+	return true, "header installed where non-nil" + map[bool]string{true: "; Content-Type added where non-empty", false: ""}[withCT]
 }
